@@ -1771,7 +1771,7 @@ func (p *PQL) Init() {
 			position, tokenIndex = position133, tokenIndex133
 			return false
 		},
-		/* 12 item <- <(('n' 'u' 'l' 'l' &(comma / (sp close)) Action38) / ('t' 'r' 'u' 'e' &(comma / (sp close)) Action39) / ('f' 'a' 'l' 's' 'e' &(comma / (sp close)) Action40) / (timestampfmt Action41) / (<('-'? [0-9]+ ('.' [0-9]*)?)> Action42) / (<('-'? '.' [0-9]+)> Action43) / (<IDENT> Action44 open allargs comma? close Action45) / (<([a-z] / [A-Z] / [0-9] / '-' / '_' / ':')+> Action46) / (<('"' doublequotedstring '"')> Action47) / ('\'' <singlequotedstring> '\'' Action48))> */
+		/* 12 item <- <(('n' 'u' 'l' 'l' &(comma / (sp close) / (sp ']')) Action38) / ('t' 'r' 'u' 'e' &(comma / (sp close) / (sp ']')) Action39) / ('f' 'a' 'l' 's' 'e' &(comma / (sp close) / (sp ']')) Action40) / (timestampfmt Action41) / (<('-'? [0-9]+ ('.' [0-9]*)?)> Action42) / (<('-'? '.' [0-9]+)> Action43) / (<IDENT> Action44 open allargs comma? close Action45) / (<([a-z] / [A-Z] / [0-9] / '-' / '_' / ':')+> Action46) / (<('"' doublequotedstring '"')> Action47) / ('\'' <singlequotedstring> '\'' Action48))> */
 		func() bool {
 			position137, tokenIndex137 := position, tokenIndex
 			{
@@ -1805,11 +1805,21 @@ func (p *PQL) Init() {
 						l143:
 							position, tokenIndex = position142, tokenIndex142
 							if !_rules[rulesp]() {
-								goto l140
+								goto l142b
 							}
 							if !_rules[ruleclose]() {
+								goto l142b
+							}
+							goto l142
+						l142b:
+							position, tokenIndex = position142, tokenIndex142
+							if !_rules[rulesp]() {
 								goto l140
 							}
+							if buffer[position] != rune(']') {
+								goto l140
+							}
+							position++
 						}
 					l142:
 						position, tokenIndex = position141, tokenIndex141
@@ -1847,11 +1857,21 @@ func (p *PQL) Init() {
 						l148:
 							position, tokenIndex = position147, tokenIndex147
 							if !_rules[rulesp]() {
-								goto l145
+								goto l147b
 							}
 							if !_rules[ruleclose]() {
+								goto l147b
+							}
+							goto l147
+						l147b:
+							position, tokenIndex = position147, tokenIndex147
+							if !_rules[rulesp]() {
 								goto l145
 							}
+							if buffer[position] != rune(']') {
+								goto l145
+							}
+							position++
 						}
 					l147:
 						position, tokenIndex = position146, tokenIndex146
@@ -1893,11 +1913,21 @@ func (p *PQL) Init() {
 						l153:
 							position, tokenIndex = position152, tokenIndex152
 							if !_rules[rulesp]() {
-								goto l150
+								goto l152b
 							}
 							if !_rules[ruleclose]() {
+								goto l152b
+							}
+							goto l152
+						l152b:
+							position, tokenIndex = position152, tokenIndex152
+							if !_rules[rulesp]() {
 								goto l150
 							}
+							if buffer[position] != rune(']') {
+								goto l150
+							}
+							position++
 						}
 					l152:
 						position, tokenIndex = position151, tokenIndex151
